@@ -118,7 +118,7 @@ func rebase(ref *Ref, v *url.URL, notEqual bool) (Ref, bool) {
 		return *ref, false
 	}
 
-	if u.RawQuery == "" && v.RawQuery != "" {
+	if u.Scheme != fileScheme && u.RawQuery == "" && v.RawQuery != "" {
 		// a relative $ref inherits the query of its base: a target without query can't be expressed relatively
 		return *ref, false
 	}
@@ -133,8 +133,9 @@ func rebase(ref *Ref, v *url.URL, notEqual bool) (Ref, bool) {
 	}
 
 	newBase.Fragment = u.Fragment
-	if u.RawQuery != v.RawQuery {
-		// the query is part of the target's location: keep it, unless inherited from the base
+	if u.Scheme != fileScheme && u.RawQuery != v.RawQuery {
+		// the query is part of the target's location (but for local files, where it is irrelevant):
+		// keep it, unless inherited from the base
 		newBase.RawQuery = u.RawQuery
 	}
 
